@@ -271,6 +271,10 @@ func execAq(f []string) string {
 	return strings.Join(out, " ")
 }
 
+// poisoned is set once a concurrent case timed out: its goroutines may still spin or block, so the
+// remaining concurrent cases of this run are skipped (scripted cases still run).
+var poisoned atomic.Bool
+
 const valBase = 1000000
 
 func fmtInts(xs []int) string {
@@ -316,15 +320,32 @@ func stress(p, c, items, closeMode int, send func(int) bool, recv func() (int, b
 			}
 		}(i)
 	}
+	pdone := make(chan struct{})
+	go func() { pw.Wait(); close(pdone) }()
+	waitProducers := func() bool {
+		select {
+		case <-pdone:
+			return true
+		case <-time.After(5 * time.Second):
+			poisoned.Store(true)
+			return false
+		}
+	}
 	if closeMode == 1 {
 		// close while producers are (probably) still running
-		for sentOK.Load() < int64(p*items/2) {
+		t0 := time.Now()
+		for sentOK.Load() < int64(p*items/2) && time.Since(t0) < 5*time.Second {
 			time.Sleep(20 * time.Microsecond)
 		}
 		closeQ()
-		pw.Wait()
+		if !waitProducers() {
+			return "TIMEOUT producers did not terminate after Close"
+		}
 	} else {
-		pw.Wait()
+		if !waitProducers() {
+			closeQ()
+			return "TIMEOUT producers blocked although consumers are receiving"
+		}
 		closeQ()
 	}
 	done := make(chan struct{})
@@ -332,6 +353,7 @@ func stress(p, c, items, closeMode int, send func(int) bool, recv func() (int, b
 	select {
 	case <-done:
 	case <-time.After(5 * time.Second):
+		poisoned.Store(true)
 		return "TIMEOUT consumers did not terminate after Close"
 	}
 	var sb strings.Builder
@@ -405,6 +427,7 @@ func execWin(f []string) string {
 		}(ws[i])
 	}
 	if !waitAt(ws) {
+		poisoned.Store(true)
 		return "TIMEOUT receivers did not reach the park point"
 	}
 	for i := 0; i < k; i++ {
@@ -464,6 +487,7 @@ func execWinS(f []string) string {
 		go func(i int, w *windowCtx) { res <- q.Send(w, 100+i) }(i, ws[i])
 	}
 	if !waitAt(ws) {
+		poisoned.Store(true)
 		return "TIMEOUT senders did not reach the park point"
 	}
 	for i := 0; i < k; i++ {
@@ -509,6 +533,9 @@ func exec(line string, st *hx.Stats) string {
 	f := strings.Fields(line)
 	if len(f) == 0 {
 		return "badcase"
+	}
+	if poisoned.Load() && f[0] != "mq" && f[0] != "aq" {
+		return "SKIPPED after a timeout in this run"
 	}
 	switch f[0] {
 	case "mq":
